@@ -18,7 +18,8 @@ pub const N_FAMILIES: u8 = 10;
 pub const FAM_TINY: u8 = 10;
 pub const FAM_HUGE: u8 = 11;
 pub const FAM_VANISHING: u8 = 12;
-pub const FAMILY_NAMES: [&str; 13] = [
+pub const FAM_NEAR_UNDERFLOW: u8 = 13;
+pub const FAMILY_NAMES: [&str; 14] = [
     "uniform-positive",
     "mixed-sign-gaussian",
     "log-uniform-wide",
@@ -32,6 +33,7 @@ pub const FAMILY_NAMES: [&str; 13] = [
     "subnormal-range",
     "huge-magnitudes",
     "head-plus-vanishing-increments",
+    "just-above-underflow",
 ];
 pub const FAM_EXACT: u8 = 4;
 
@@ -54,7 +56,7 @@ impl TapeSpec {
         match self {
             TapeSpec::Explicit(v) => json!({"hex": v.iter().map(|b| format!("{:x}", b)).collect::<Vec<_>>() }),
             TapeSpec::Gen { family, seed, len, flt, positive, scale_exp } => json!({"gen": {
-                "family": family, "family_name": FAMILY_NAMES[*family as usize % 13], "seed": format!("{:x}", seed), "len": len,
+                "family": family, "family_name": FAMILY_NAMES[*family as usize % 14], "seed": format!("{:x}", seed), "len": len,
                 "flt": match flt { Flt::F32 => "f32", Flt::F64 => "f64", Flt::Int => "int" },
                 "positive": positive, "scale_exp": scale_exp }}),
         }
@@ -172,6 +174,12 @@ pub fn gen_tape(family: u8, seed: u64, len: usize, flt: Flt, positive: bool, sca
                     scale * 0.1
                 }
             }
+            13 => {
+                // normal numbers just above the underflow threshold: the rounding error of every
+                // addition is itself subnormal
+                let minp = if flt == Flt::F32 { f32::MIN_POSITIVE as f64 } else { f64::MIN_POSITIVE };
+                minp * 10f64.powf(r.unit() * 6.0) * if r.chance(0.8) { 1.0 } else { -1.0 }
+            }
             12 => {
                 // a head followed by same-sign increments that are 3 .. 20 decades smaller (far
                 // below the resolution of the running sum: they live in the compensation only)
@@ -187,14 +195,9 @@ pub fn gen_tape(family: u8, seed: u64, len: usize, flt: Flt, positive: bool, sca
                 // oracle has an absolute floor there)
                 let sub = if flt == Flt::F32 { f32::from_bits(1) as f64 } else { f64::from_bits(1) };
                 let minp = if flt == Flt::F32 { f32::MIN_POSITIVE as f64 } else { f64::MIN_POSITIVE };
-                if delta < 0.03 {
-                    // whole tape inside the subnormal range
-                    sub * (r.below(5000) as f64) * if r.chance(0.7) { 1.0 } else { -1.0 }
-                } else {
-                    // normal numbers just above the underflow threshold: the rounding error of
-                    // every addition is itself subnormal
-                    minp * 10f64.powf(r.unit() * 6.0) * if r.chance(0.8) { 1.0 } else { -1.0 }
-                }
+                let _ = minp;
+                // whole tape inside the subnormal range
+                sub * (r.below(5000) as f64) * if r.chance(0.7) { 1.0 } else { -1.0 }
             }
             _ => {
                 // huge magnitudes: 2^-24 of the largest finite value, so that 10^7 terms cannot overflow
